@@ -147,7 +147,9 @@ func Run(sc Scenario) *Result {
 			if u%4 == 0 {
 				id = ""
 			}
-			m = message.NewMessage(id, payload)
+			// the UUID is set on the struct (not through the constructor): a cleared or never-set UUID is legal
+			m = message.NewMessage("x", payload)
+			m.UUID = id
 			m.Metadata.Set("k", "v"+strconv.Itoa(u))
 		} else if x%11 == 5 {
 			// a message built without the constructor: no metadata map at all (legal; every delivery must still be a
